@@ -376,4 +376,103 @@ theorem bil_blockDiag : ∀ (sizes : List ℕ) (G : ℕ → ℕ → ℕ → ℚ)
       rw [blockDiag_squares_cons]
       simp [hi', hk']
 
+theorem dot_add_left (M : ℕ) (x x' y : ℕ → ℚ) :
+    dot M (fun i => x i + x' i) y = dot M x y + dot M x' y := by
+  unfold dot; rw [← Finset.sum_add_distrib]; apply Finset.sum_congr rfl; intro i _; ring
+
+theorem dot_add_right (M : ℕ) (x y y' : ℕ → ℚ) :
+    dot M x (fun i => y i + y' i) = dot M x y + dot M x y' := by
+  rw [dot_comm, dot_add_left, dot_comm M y, dot_comm M y']
+
+theorem mulVec_add (M : ℕ) (A : ℕ → ℕ → ℚ) (x x' : ℕ → ℚ) (i : ℕ) :
+    mulVec M A (fun k => x k + x' k) i = mulVec M A x i + mulVec M A x' i := by
+  unfold mulVec; rw [← Finset.sum_add_distrib]; apply Finset.sum_congr rfl; intro k _; ring
+
+theorem mulVec_smul (M : ℕ) (A : ℕ → ℕ → ℚ) (x : ℕ → ℚ) (a : ℚ) (i : ℕ) :
+    mulVec M A (fun k => a * x k) i = a * mulVec M A x i := by
+  unfold mulVec; rw [Finset.mul_sum]; apply Finset.sum_congr rfl; intro k _; ring
+
+/-- The uncentred second moment is the covariance plus `N/(N−1)` times the outer product of the
+column means. -/
+theorem secondMoment_eq_cov_add (N : ℕ) (hN : 2 ≤ N) (ξ : ℕ → ℕ → ℚ) (j k : ℕ) :
+    secondMoment N ξ j k
+      = cov N ξ j k + (N : ℚ) / ((N : ℚ) - 1) * (colMean N ξ j * colMean N ξ k) := by
+  have hN' : (2 : ℚ) ≤ N := by exact_mod_cast hN
+  have h1 : (N : ℚ) - 1 ≠ 0 := by linarith
+  have h0 : (N : ℚ) ≠ 0 := by linarith
+  have hs : ∀ a, ∑ i ∈ range N, ξ i a = N * colMean N ξ a := by
+    intro a; unfold colMean; field_simp
+  unfold cov secondMoment center
+  have e : ∑ i ∈ range N, (ξ i j - colMean N ξ j) * (ξ i k - colMean N ξ k)
+      = ∑ i ∈ range N, ξ i j * ξ i k - N * (colMean N ξ j * colMean N ξ k) := by
+    have : ∀ i, (ξ i j - colMean N ξ j) * (ξ i k - colMean N ξ k)
+        = ξ i j * ξ i k - colMean N ξ k * ξ i j - colMean N ξ j * ξ i k + colMean N ξ j * colMean N ξ k := by
+      intro i; ring
+    simp_rw [this, Finset.sum_add_distrib, Finset.sum_sub_distrib, ← Finset.mul_sum, hs]
+    simp only [Finset.sum_const, Finset.card_range, nsmul_eq_mul]
+    ring
+  rw [e]
+  field_simp
+  ring
+
+/-- **What the centring defect explains.**  If `(ν_m, c_m)`, `(ν_l, c_l)` are right eigenpairs of the
+matrix handed to the solver (no centring assumed), the numerator of the product-space Gram matrix of
+the coded weights is
+`ν_l c_mᵀQc_l + κ(μ·c_m)(μ·c_l)(ν_m + ν_l) + κ²(μ·c_m)(μ·c_l) μᵀBμ` with `μ` the column means of the
+univariate scores and `κ = N/(N−1)`. -/
+theorem prodGram_uncentred (M N : ℕ) (hN : 2 ≤ N) (U ξ c : ℕ → ℕ → ℚ) (ν : ℕ → ℚ) (m l : ℕ)
+    (hm : ∀ i < M, mulVec M (solverMatrix M N U ξ) (col c m) i = ν m * c i m)
+    (hl : ∀ i < M, mulVec M (solverMatrix M N U ξ) (col c l) i = ν l * c i l) :
+    prodGramNum M (gramOfFactor M U) (weights M N ξ c) m l
+      = ν l * bil M (cov N ξ) (col c m) (col c l)
+        + (N : ℚ) / ((N : ℚ) - 1) * (dot M (colMean N ξ) (col c m) * dot M (colMean N ξ) (col c l)) * (ν m + ν l)
+        + ((N : ℚ) / ((N : ℚ) - 1)) ^ 2 * (dot M (colMean N ξ) (col c m) * dot M (colMean N ξ) (col c l))
+            * bil M (gramOfFactor M U) (colMean N ξ) (colMean N ξ) := by
+  set κ : ℚ := (N : ℚ) / ((N : ℚ) - 1) with hκ
+  set μ := colMean N ξ with hμ
+  set B := gramOfFactor M U with hBdef
+  set Q := cov N ξ with hQdef
+  have hB : ∀ i < M, ∀ j < M, B i j = B j i := fun i _ j _ => gramOfFactor_symm M U i j
+  have hQ : ∀ i < M, ∀ j < M, Q i j = Q j i := fun i _ j _ => cov_symm N ξ i j
+  -- columns of the weights
+  have hW : ∀ a j, col (weights M N ξ c) a j
+      = mulVec M Q (col c a) j + κ * dot M μ (col c a) * μ j := by
+    intro a j
+    show mulVec M (secondMoment N ξ) (col c a) j = _
+    unfold mulVec dot
+    rw [Finset.mul_sum, Finset.sum_mul, ← Finset.sum_add_distrib]
+    apply Finset.sum_congr rfl; intro k _
+    rw [secondMoment_eq_cov_add N hN]
+    ring
+  have hBQ : ∀ a, (∀ i < M, mulVec M (solverMatrix M N U ξ) (col c a) i = ν a * c i a) →
+      ∀ i < M, mulVec M B (mulVec M Q (col c a)) i = ν a * col c a i := by
+    intro a ha i hi
+    rw [← mulVec_matMul]; exact ha i hi
+  unfold prodGramNum bil
+  have e1 : ∀ i < M, mulVec M B (col (weights M N ξ c) l) i
+      = ν l * col c l i + κ * dot M μ (col c l) * mulVec M B μ i := by
+    intro i hi
+    have : mulVec M B (col (weights M N ξ c) l) i
+        = mulVec M B (fun j => mulVec M Q (col c l) j + (κ * dot M μ (col c l)) * μ j) i :=
+      mulVec_congr B (fun j _ => hW l j) i
+    rw [this, mulVec_add, mulVec_smul, hBQ l hl i hi]
+  rw [dot_congr_right _ e1, dot_congr_left _ (fun j _ => hW m j)]
+  rw [dot_add_left, dot_add_right, dot_add_right]
+  -- the four terms
+  have t1 : dot M (mulVec M Q (col c m)) (fun i => ν l * col c l i) = ν l * dot M (col c m) (mulVec M Q (col c l)) := by
+    rw [dot_smul_right, dot_mulVec_symm M Q hQ]
+  have t2 : dot M (mulVec M Q (col c m)) (fun i => κ * dot M μ (col c l) * mulVec M B μ i)
+      = κ * dot M μ (col c l) * (ν m * dot M μ (col c m)) := by
+    rw [dot_smul_right]
+    congr 1
+    rw [dot_comm, dot_mulVec_symm M B hB, dot_congr_right _ (hBQ m hm), dot_smul_right]
+  have t3 : dot M (fun j => κ * dot M μ (col c m) * μ j) (fun i => ν l * col c l i)
+      = κ * dot M μ (col c m) * (ν l * dot M μ (col c l)) := by
+    rw [dot_smul_left, dot_smul_right]
+  have t4 : dot M (fun j => κ * dot M μ (col c m) * μ j) (fun i => κ * dot M μ (col c l) * mulVec M B μ i)
+      = κ * dot M μ (col c m) * (κ * dot M μ (col c l) * dot M μ (mulVec M B μ)) := by
+    rw [dot_smul_left, dot_smul_right]
+  rw [t1, t2, t3, t4]
+  ring
+
 end FDA.MFPCA
